@@ -148,6 +148,83 @@ def must_pass(cfg, src, dst, via, skip_exc=False):
     return dst not in r
 
 
+def _falsy_const(e):
+    return (isinstance(e, ast.Constant) and not e.value) or (
+        isinstance(e, (ast.List, ast.Tuple, ast.Dict)) and
+        not getattr(e, 'elts', getattr(e, 'keys', None))) or (
+        isinstance(e, ast.Call) and isinstance(e.func, ast.Name) and
+        e.func.id in ('list', 'dict', 'set', 'tuple') and not e.args and
+        not e.keywords)
+
+
+def _truth_test(e):
+    """(name, edge label taken when the name is falsy) of a test on the
+    truth of one local name: `x`, `not x`, `x is None`, `x is not None`"""
+    if isinstance(e, ast.Name):
+        return e.id, 'F'
+    if isinstance(e, ast.UnaryOp) and isinstance(e.op, ast.Not) and \
+            isinstance(e.operand, ast.Name):
+        return e.operand.id, 'T'
+    return None
+
+
+def must_pass_feasible(cfg, src, dst, via, skip_exc=False):
+    """as must_pass, but paths on which a local name was last bound to a falsy
+    constant (`x = None`) and then tested for truth (`if x:`) only follow the
+    edge that falsy value takes.  Product state: (node, names known falsy)."""
+    from .model import stores_in_target
+    via = set(via)
+    start = (src, frozenset())
+    seen = {start}
+    todo = [start]
+    while todo:
+        nid, fz = todo.pop()
+        n = cfg.nodes[nid]
+        only = None
+        if n.kind == 'test':
+            t = _truth_test(n.ast)
+            if t and t[0] in fz:
+                only = t[1]
+        nf = fz
+        if n.kind == 'stmt' and isinstance(n.ast, ast.Assign):
+            names = set()
+            for tg in n.ast.targets:
+                names |= set(stores_in_target(tg))
+            if len(n.ast.targets) == 1 and \
+                    isinstance(n.ast.targets[0], ast.Name) and \
+                    _falsy_const(n.ast.value):
+                nf = fz | names
+            else:
+                nf = fz - names
+        elif n.kind == 'stmt' and isinstance(n.ast, (ast.AugAssign,
+                                                     ast.AnnAssign)):
+            nf = fz - set(stores_in_target(n.ast.target))
+        elif n.kind == 'for':
+            nf = fz - set(stores_in_target(n.ast.target))
+        elif n.kind in ('with', 'handler') and n.ast is not None:
+            bound = set()
+            for x in ast.walk(n.ast) if n.kind == 'with' else []:
+                if isinstance(x, ast.withitem) and x.optional_vars is not None:
+                    bound |= set(stores_in_target(x.optional_vars))
+            if n.kind == 'handler' and getattr(n.ast, 'name', None):
+                bound.add(n.ast.name)
+            nf = fz - bound
+        for e in cfg.succ[nid]:
+            if skip_exc and e.label == 'exc':
+                continue
+            if only is not None and e.label in ('T', 'F') and e.label != only:
+                continue
+            if e.dst == dst:
+                return False
+            if e.dst in via:
+                continue
+            st = (e.dst, nf)
+            if st not in seen:
+                seen.add(st)
+                todo.append(st)
+    return True
+
+
 def precedes_on_all_paths(cfg, first_ids, second_id, start=None):
     """every path from start to second_id passes one of first_ids"""
     start = cfg.entry.id if start is None else start
